@@ -27,12 +27,12 @@ ITERS = ['iter', 'drain', 'into_iter']
 PROPS = {
     'C01': dict(
         comps=['mon_c01', 'mon_c01_cur', 'fault'], corr_only=['fault'],
-        theorems=['C01_bound', 'C01_arith', 'C01_total', 'C01_monitor_sound'],
+        theorems=['C01_bound', 'C01_arith', 'C01_total', 'C01_monitor_sound', 'C01_pointer_level'],
         assumptions=['entry_size of every presented pair fits in usize (DESIGN.md 9.2)', '0 < size_of::<Entry<K,V>>() and size_of::<V>() <= size_of::<Entry<K,V>>()'],
     ),
     'C02': dict(
         comps=['mon_c02', 'mon_c02_sum', 'api_len'],
-        theorems=['C02_sum', 'C02_monitor_sound'],
+        theorems=['C02_sum', 'C02_monitor_sound', 'C02_pointer_level'],
         assumptions=['key and value sizes change only inside mutate (the harness types guarantee it)'],
     ),
     'C03': dict(
@@ -44,7 +44,7 @@ PROPS = {
     'C04': dict(
         oplayer=['P2_lrucache_remove$', 'P2_lrucache_remove_entry', 'P2_lrucache_remove_from_table', 'P2_lrucache_contains', 'P2_lrucache_peek$', 'P2_lrucache_peek_entry', 'P2_lrucache_get_from_table', 'P2_lrucache_remove_mru'],
         comps=[('res', LOOKUPS), 'keyset', 'mon_c04', 'api_map'], directed=['c04_alias_prefix'],
-        theorems=['C04_nodup', 'C04_outputs', 'C04_insert_returns_old', 'C04_step', 'C04_monitor_sound'],
+        theorems=['C04_nodup', 'C04_outputs', 'C04_insert_returns_old', 'C04_step', 'C04_monitor_sound', 'C04_pointer_level'],
         assumptions=['hashbrown finds an entry iff present under any hash function when the same hash is presented as at insertion (its contract; exercised with 5 hashers incl. constant, and Borrow<KeyId> lookups)',
                      'after every step every key of the universe is looked up through contains/peek/peek_entry in borrowed and owned form and compared with the pointer walk (flag api_map)'],
     ),
@@ -56,7 +56,7 @@ PROPS = {
     ),
     'C06': dict(
         comps=['mon_c06', 'drop_once'],
-        theorems=['C06_step', 'C06_exactly_once', 'C06_no_leak_without_forget', 'C06_monitor_sound'],
+        theorems=['C06_step', 'C06_exactly_once', 'C06_no_leak_without_forget', 'C06_monitor_sound', 'C06_pointer_level'],
         assumptions=['object identity = token carried by the instrumented key/value types; Drop logs the token'],
     ),
     'C07': dict(
@@ -75,26 +75,26 @@ PROPS = {
         oplayer=['P2_lrucache_insert$', 'P2_lrucache_try_insert', 'P2_lrucache_prepare_insert'],
         comps=['res_class', 'atomic', 'keyset', 'evict_order'],
         ops=INS,
-        theorems=['C10_insert', 'C10_try_insert'],
+        theorems=['C10_insert', 'C10_try_insert', 'C10_pointer_level'],
     ),
     'C11': dict(
         oplayer=['P2_lrucache_mutate'],
         comps=['res', 'closure_calls', 'keyset', 'order', 'ents', 'sizes', 'cur', 'max', 'drops', 'evict_order'],
         ops=['mutate'],
-        theorems=['C11_absent', 'C11_too_large', 'C11_ok'],
+        theorems=['C11_absent', 'C11_too_large', 'C11_ok', 'C11_pointer_level'],
         assumptions=['that the closure is not called for an absent key is observed by the harness (closure call counter), not part of the Layer A theorem'],
     ),
     'C12': dict(
         comps=['res', 'drops', 'keyset', 'order', 'ents', 'sizes', 'cur', 'max', 'mon_c06'],
         ops=ITERS, bodies=['Iter::', 'TakingIterator::', 'Drain::new', 'lru_ptr', 'mru_ptr'],
         comps_any=['api_order'],
-        theorems=['C12_split', 'C12_fused', 'C12_iter', 'C12_drain', 'C12_into_iter', 'C12_cursor', 'C12_taking', 'C12_taking_items'],
+        theorems=['C12_split', 'C12_fused', 'C12_iter', 'C12_drain', 'C12_into_iter', 'C12_cursor', 'C12_taking', 'C12_taking_items', 'C12_pointer_level_drain'],
     ),
     'C13': dict(
         oplayer=['P2_lrucache_insert_unchecked', 'P2_lrucache_reallocate', 'P2_lrucache_try_reallocate', 'P2_lrucache_reserve', 'P2_lrucache_try_reserve', 'P2_lrucache_shrink_to', 'P2_lrucache_new_capacity', 'P2_lrucache_insert_untracked'],
         corr_only=['cap'], directed=['c13_shrink_raises'],
         comps=['cap', 'clone_cap', 'mon_c13', 'growth'] + [(c, CAPOPS) for c in ('res', 'keyset', 'order', 'ents', 'sizes', 'cur', 'max', 'drops')],
-        theorems=['C13_transparent', 'C13_reserve', 'C13_try_reserve_fail', 'C13_shrink', 'C13_shrink_to_fit', 'C13_with_capacity_step', 'C13_auto_growth', 'C13_growth_bounded', 'C13_monitor_growth_insert', 'C13_monitor_growth_try_insert', 'C13_monitor_sound'],
+        theorems=['C13_transparent', 'C13_reserve', 'C13_try_reserve_fail', 'C13_shrink', 'C13_shrink_to_fit', 'C13_with_capacity_step', 'C13_auto_growth', 'C13_growth_bounded', 'C13_monitor_growth_insert', 'C13_monitor_growth_try_insert', 'C13_monitor_sound', 'C13_pointer_level'],
         assumptions=['Layer T is a demonic abstraction of hashbrown: tombstone creation/reuse is an oracle resolved from the observed capacity; every observed (len, capacity, buckets) transition must be one the model allows',
                      'allocator refusal is injected by the harness allocator for try_reserve'],
     ),
@@ -108,7 +108,7 @@ PROPS = {
     'C15': dict(
         comps=['visits', 'res', 'keyset', 'order', 'ents', 'sizes', 'cur', 'max', 'drops'],
         ops=['retain'],
-        theorems=['C15_retain'],
+        theorems=['C15_retain', 'C15_pointer_level'],
     ),
     'C16': dict(
         directed=['c16_hash_panic_in_realloc'],
@@ -139,7 +139,7 @@ PROPS = {
     ),
     'C20': dict(
         comps=['mon_c20'],
-        theorems=['C20_bound', 'C20_clone', 'C20_drop_into_iter', 'C20_hash_points', 'C20_monitor_sound'],
+        theorems=['C20_bound', 'C20_clone', 'C20_drop_into_iter', 'C20_hash_points', 'C20_monitor_sound', 'C20_pointer_level'],
         assumptions=['the bound is evaluated on the implementation from observed quantities (hash calls of the instrumented key, departures, whether the table was rebuilt); that the implementation hashes no more than the model is logged, not required'],
     ),
 }
